@@ -756,6 +756,29 @@ C("_reset_internal", arg_types={**SELF, "clear_packet_queue": T.Bool}, props=("C
   effects=set(), modular=False)
 
 
+# the constructor establishes the invariant and the fresh state (so that "for every history" starts from a proved base case)
+from cfdppy.mib import LocalEntityCfg as _LEC, RemoteEntityCfgTable as _RCT, CheckTimerProvider as _CTP  # noqa: E402
+from cfdppy.user import CfdpUserBase as _UB  # noqa: E402
+
+C("__init__", arg_types={**SELF, "cfg": T.Obj(_LEC), "user": T.Obj(_UB), "remote_cfg_table": T.Obj(_RCT),
+                         "check_timer_provider": T.Obj(_CTP)}, props=("C11", "C10"), result=None,
+  requires=[("valid_local_cfg", lambda o: And_(table_inv(o.cfg.default_fault_handlers._handler_dict.d), ubf_inv(o.cfg.local_entity_id)))],
+  modifies=["self.cfg", "self.remote_cfg_table", "self.states", "self.user", "self.check_timer_provider", "self._params",
+            "self._pdus_to_be_sent"],
+  ensures=[
+      Clause("C11.dest.constructor_gives_idle_fresh_handler", lambda o, n, r: And_(
+          eq(n.self.states.state, IDLE), eq(n.self.states.step, STEP.IDLE), fresh_params(n.self._params),
+          n.self._pdus_to_be_sent.length() == 0, to_z3_int(n.self.states._num_packets_ready) == 0), ("C11",)),
+      Clause("C11.dest.constructor_keeps_its_arguments", lambda o, n, r: (
+          n.self.cfg.oid == o.cfg.oid and n.self.user.oid == o.user.oid and n.self.remote_cfg_table.oid == o.remote_cfg_table.oid
+          and n.self.check_timer_provider.oid == o.check_timer_provider.oid), ("C11",)),
+      Clause("C11.dest.constructor_tracker_is_not_shared", lambda o, n, r: not any(
+          isinstance(v, SObj) and (v is n.self._params.acked_params.lost_seg_tracker or v is n.self._params
+                                   or v is n.self.states) for v in n.interp.shared_objs.values()), ("C11",)),
+  ] + inv_clauses(("C11", "C10")),
+  effects=set(), modular=False)
+
+
 C("_reset_nak_activity_parameters", arg_types=SELF, props=("C04",), result=None,
   requires=REQ_INV + [("timer", lambda o: Not_(isnone(o.self._params.acked_params.procedure_timer)))],
   modifies=["self._params.acked_params.nak_activity_counter", "self._params.acked_params.procedure_timer.expired"],
